@@ -257,7 +257,7 @@ struct CallPlan { unsigned horizon, iters; double expl = 1.0; size_t bs = 1; };
 
 template <class PlannerT, class FreshF, class AdvF, class DumpF, class HasF>
 static void episode(Core & c, int kind, Rng & rng, const std::vector<CallPlan> & plan, double expl, size_t extraParam,
-                    PlannerT & pl, FreshF fresh, AdvF adv, DumpF dump, HasF hasChild, bool pomdp, RHooks * rh = nullptr) {
+                    PlannerT & pl, FreshF fresh, AdvF adv, DumpF dump, HasF hasChild, bool pomdp, RHooks * rh = nullptr, bool firstAdv = false) {
     Line run; run << "C19" << (kind == 3 ? "rrun" : "run"); putCore(run, c, kind); run << expl << extraParam << c.entropy;
     std::vector<std::string> extra;
     size_t sTrue = 0;          // true environment state: base 0 at time 0 is never terminal
@@ -274,7 +274,7 @@ static void episode(Core & c, int kind, Rng & rng, const std::vector<CallPlan> &
         if (ci > 0 && plan[ci].expl != plan[ci - 1].expl) std::printf("#stat exploration_changed_between_calls 1\n");
         if (ci > 0 && pomdp && plan[ci].bs != plan[ci - 1].bs) std::printf("#stat belief_size_changed_between_calls 1\n");
         size_t ret;
-        if (ci == 0) {
+        if (ci == 0 && !firstAdv) {
             std::vector<size_t> support{sTrue};
             if (pomdp && rng.coin(1, 2)) for (size_t b = 1; b < c.nb; ++b) if (!c.term[b] && rng.coin(1, 2)) support.push_back(b);
             // the belief need not contain state 0, and need not be uniform (weights in sixteenths, exact in doubles):
@@ -316,7 +316,7 @@ static void episode(Core & c, int kind, Rng & rng, const std::vector<CallPlan> &
             c.log.clear(); c.clamped = 0; c.fromTerminal = 0;
             c.recording = true; ret = adv(aTaken, key, h); c.recording = false;
             if (rh) { rh->head(rhl); extra.push_back(rhl.os.str()); }
-            rootT += 1;
+            if (ci > 0) rootT += 1; else { rootT = c.time(sTrue); std::printf("#stat advance_before_first_call 1\n"); }
             if (hit) budget = std::max(budget > 0 ? budget - 1 : 0, (size_t)h); else budget = h;
             if (!hit && pomdp) mixed = true;
         }
@@ -385,7 +385,9 @@ static AIToolbox::POMDP::Belief mkBelief(const Core & c, const std::vector<size_
     return b;
 }
 
-static const long kWitness = 4;
+// cases 4, 5, 6: `sampleAction(a, key, horizon)` as the very first call on MCTS / POMCP / rPOMCP (fixes/C19-3: the first two
+// index an empty vector in the source as first read; a crash of case 4 / 5 is classified by SPEC['classify_crash'])
+static const long kWitness = 7;
 
 long verif::verif_ncases(const std::string & tier) { return kWitness + (tier == "thorough" ? 9000 : 2000); }
 
@@ -403,7 +405,10 @@ void verif::verif_case(Rng & rng, long idx, const std::string & tier) {
         l.emit();
     }
     bool witness = idx < kWitness;
-    int kind = witness ? (int)(idx % 4) : (int)rng.below(6);     // 4 = MCTS on a hashed non-integral state type, 5 = rPOMCP with the entropy measure
+    static const int wkind[] = {0, 1, 2, 3, 0, 2, 3};
+    int kind = witness ? wkind[idx] : (int)rng.below(6);
+    // the advancing overload first: witnesses 4..6; at random only for rPOMCP (whose constructor builds the head's action nodes)
+    bool firstAdv = witness ? idx >= 4 : ((kind == 3 || kind == 5) && rng.coin(1, 12));     // 4 = MCTS on a hashed non-integral state type, 5 = rPOMCP with the entropy measure
     unsigned maxSteps = 0;
     auto plan = genPlan(rng, tier, witness, maxSteps);
     Core c; genCore(c, rng, kind == 4 ? 1 : (kind == 5 ? 3 : kind), witness, maxSteps);
@@ -427,21 +432,21 @@ void verif::verif_case(Rng & rng, long idx, const std::string & tier) {
             [&](const std::vector<size_t> & s, unsigned h) { return pl.sampleAction(s[0], h); },
             [&](size_t a, size_t k, unsigned h) { return pl.sampleAction(a, k, h); },
             [&](Line & l, Path & p, size_t & n) { dumpMcts(pl.getGraph(), p, l, n); },
-            [&](size_t a, size_t k) { auto & g = pl.getGraph(); return a < g.children.size() && g.children[a].children.count(k) > 0; }, false);
+            [&](size_t a, size_t k) { auto & g = pl.getGraph(); return a < g.children.size() && g.children[a].children.count(k) > 0; }, false, nullptr, firstAdv);
     } else if (kind == 1) {
         GMVar m{&c}; AIToolbox::MDP::MCTS<GMVar> pl(m, 1, expl);
         episode(c, kind, rng, plan, expl, 0, pl,
             [&](const std::vector<size_t> & s, unsigned h) { return pl.sampleAction(s[0], h); },
             [&](size_t a, size_t k, unsigned h) { return pl.sampleAction(a, k, h); },
             [&](Line & l, Path & p, size_t & n) { dumpMcts(pl.getGraph(), p, l, n); },
-            [&](size_t a, size_t k) { auto & g = pl.getGraph(); return a < g.children.size() && g.children[a].children.count(k) > 0; }, false);
+            [&](size_t a, size_t k) { auto & g = pl.getGraph(); return a < g.children.size() && g.children[a].children.count(k) > 0; }, false, nullptr, firstAdv);
     } else if (kind == 4) {
         GMHashed m{&c}; AIToolbox::MDP::MCTS<GMHashed, HSHash> pl(m, 1, expl);
         episode(c, 1, rng, plan, expl, 0, pl,
             [&](const std::vector<size_t> & s, unsigned h) { return pl.sampleAction(HS{s[0]}, h); },
             [&](size_t a, size_t k, unsigned h) { return pl.sampleAction(a, HS{k}, h); },
             [&](Line & l, Path & p, size_t & n) { dumpMcts(pl.getGraph(), p, l, n); },
-            [&](size_t a, size_t k) { auto & g = pl.getGraph(); return a < g.children.size() && g.children[a].children.count(k) > 0; }, false);
+            [&](size_t a, size_t k) { auto & g = pl.getGraph(); return a < g.children.size() && g.children[a].children.count(k) > 0; }, false, nullptr, firstAdv);
     } else if (kind == 2) {
         size_t bs = 1 + rng.below(6);
         GMFixed m; m.c = &c; AIToolbox::POMDP::POMCP<GMFixed> pl(m, bs, 1, expl);
@@ -449,7 +454,7 @@ void verif::verif_case(Rng & rng, long idx, const std::string & tier) {
             [&](const std::vector<size_t> & s, unsigned h) { return pl.sampleAction(mkBelief(c, s), h); },
             [&](size_t a, size_t k, unsigned h) { return pl.sampleAction(a, k, h); },
             [&](Line & l, Path & p, size_t & n) { dumpPomcp(pl.getGraph(), p, l, n); },
-            [&](size_t a, size_t k) { auto & g = pl.getGraph(); return a < g.children.size() && g.children[a].children.count(k) > 0; }, true);
+            [&](size_t a, size_t k) { auto & g = pl.getGraph(); return a < g.children.size() && g.children[a].children.count(k) > 0; }, true, nullptr, firstAdv);
     } else if (kind == 3) {
         unsigned kk = 1 + (unsigned)rng.below(12);
         size_t bsP = 1 + rng.below(6);
@@ -462,7 +467,7 @@ void verif::verif_case(Rng & rng, long idx, const std::string & tier) {
             [&](const std::vector<size_t> & s, unsigned h) { return pl.sampleAction(mkBelief(c, s), h); },
             [&](size_t a, size_t k, unsigned h) { return pl.sampleAction(a, k, h); },
             [&](Line & l, Path & p, size_t & n) { dumpR<false>(pl.getGraph(), p, l, n); },
-            [&](size_t a, size_t k) { auto & g = pl.getGraph(); return a < g.children.size() && g.children[a].children.count(k) > 0; }, true, &rh);
+            [&](size_t a, size_t k) { auto & g = pl.getGraph(); return a < g.children.size() && g.children[a].children.count(k) > 0; }, true, &rh, firstAdv);
     } else {
         unsigned kk = 1 + (unsigned)rng.below(12);
         size_t bsP = 1 + rng.below(6);
@@ -475,7 +480,7 @@ void verif::verif_case(Rng & rng, long idx, const std::string & tier) {
             [&](const std::vector<size_t> & s, unsigned h) { return pl.sampleAction(mkBelief(c, s), h); },
             [&](size_t a, size_t k, unsigned h) { return pl.sampleAction(a, k, h); },
             [&](Line & l, Path & p, size_t & n) { dumpR<true>(pl.getGraph(), p, l, n); },
-            [&](size_t a, size_t k) { auto & g = pl.getGraph(); return a < g.children.size() && g.children[a].children.count(k) > 0; }, true, &rh);
+            [&](size_t a, size_t k) { auto & g = pl.getGraph(); return a < g.children.size() && g.children[a].children.count(k) > 0; }, true, &rh, firstAdv);
     }
 }
 
